@@ -2,6 +2,7 @@ import Driver.Util
 import Driver.States
 import RPVerif.Model.TmgrSched
 import RPVerif.Model.States
+import RPVerif.Gen.TmgrSched
 open Lean RPVerif.TmgrSched
 
 namespace Driver.TmgrSched
@@ -55,6 +56,21 @@ def runOps (bf : Bool) (cfg : BFCfg) (ops : List Json) : List Json :=
         let r := if bf then bfStep cfg 10 s (.pilotState pid (some (t.val n)))
                  else rrStep s (.pilotState pid (some (t.val n)))
         (r.1, full', outs ++ [Json.mkObj [("outs", jl (r.2.1.map jout)), ("err", jerr r.2.2), ("state", jstate r.1)]])
+    else if kind == "pilot_states" then
+      -- ONE notification naming several pilots (Backfilling): each goes through `_pilot_state_progress` in turn; a refused
+      -- transition raises out of the loop (the pilots before it are recorded, update_pilots is not called)
+      let walk := (jarr o "ups").foldl (fun (a : List (Nat × RPVerif.States.St) × List (Nat × Option Nat) × Bool) u =>
+        if a.2.2 then a else
+        let pid := jnat u "pid"
+        match progressed a.1 pid (Driver.States.ofName "pilot" (jstr u "state")) with
+        | none   => (a.1, a.2.1, true)
+        | some t => ((a.1.filter (fun p => p.1 ≠ pid)) ++ [(pid, t)], a.2.1 ++ [(pid, some (t.val n))], false)) (full, [], false)
+      if walk.2.2 then
+        let s' := { s with pilots := (touchAll s.pilots walk.2.1).1 }
+        (s', walk.1, outs ++ [Json.mkObj [("outs", jl []), ("err", Json.str "ValueError"), ("state", jstate s')]])
+      else
+        let r := bfPilotStates RPVerif.Gen.bfUpdateAnyEligible cfg s walk.2.1
+        (r.1, walk.1, outs ++ [Json.mkObj [("outs", jl (r.2.1.map jout)), ("err", jerr r.2.2), ("state", jstate r.1)]])
     else
       let op : Op :=
         if kind == "add" then .addPilots ((jarr o "pids").map asNat) ((jarr o "cores").map asNat)
